@@ -394,6 +394,8 @@ SPEC_FACTS = [
     ("var i = 0, out = []; do { i++; out.push(i); if (i < 3) continue; } while (false); print(out.join());", ["1"]),
     ("var out = []; outer: do { for (var j = 0; j < 2; j++) { out.push(j); if (j === 1) continue outer; } } while (false); print(out.join());", ["0,1"]),
     ("var n = 0; do { try { n++; continue; } finally { n += 10; } } while (n < 5); print(n);", ["11"]),
+    ("var it = { [Symbol.iterator]() { return { next() { return { done: false, value: 1 }; }, return() { throw 'R'; } }; } }; try { for (var v of it) { throw 'B'; } } catch (e) { print(e); } try { for (var v of it) { break; } } catch (e) { print(e); } var it2 = { [Symbol.iterator]() { return { next() { return { done: false, value: 1 }; }, return() { return 1; } }; } }; try { for (var v of it2) { throw 'B2'; } } catch (e) { print(e); } try { for (var v of it2) { break; } } catch (e) { print(e.name); }", ["B", "R", "B2", "TypeError"]),
+    ("var log = []; class A { set x(v) { log.push('setter'); } get y() { return 'ay'; } } class B extends A { x = 1; y = 2; } var b = new B(); print(Object.getOwnPropertyNames(b).join(), b.x, b.y, log.length); class R { constructor() { return Object.create({ set z(v) { log.push('z'); } }); } } class D extends R { z = 5; } var d = new D(); print(Object.getOwnPropertyNames(d).join(), d.z, log.length);", ["x,y 1 2 0", "z 5 0"]),
     ("var i, c = true; print(eval('i = 0; while (i < 1) { i = i + 1; { break; 8; } 9; }'), eval('1; l: { break l; }'), eval('l: { 1; if (c) { break l; } 2; }'), eval('l: { 1; { break l; } 2; }'), eval('i = 0; for (;;) { i++; { if (i > 2) break; } i; }'), eval('switch (1) { case 1: 5; { break; } case 2: 6; }'), eval('i = 0; while (i < 2) { i++; 3; { continue; } 4; }'), eval('3; l: ;'), eval('i = 0; while (i < 3) { i++; if (i == 2) { continue; } i * 10; }'));", ["1 1 undefined 1 undefined 5 3 3 30"]),
     ("var i; print(eval('i = 0; while (i < 1) { i = i + 1; { break; } }'), eval('i = 0; while (i < 2) { i = i + 1; { continue; } }'), eval('l: { 5; { break l; } }'), eval('i = 0; while (i < 1) { i = i + 1; { { break; } } }'), eval('i = 0; while (i < 1) { i = i + 1; if (i) { break; } }'), eval('i = 0; while (i < 1) { i = i + 1; try { break; } finally { } }'));", ["1 2 5 1 undefined undefined"]),
     ("var i = 0; function f() { return i++ < 1; } function* g() { yield 1; } print(eval('3; var y = f();'), eval('i = 0; do { 7; } while (f())'), eval('try { 8; } finally { f(); }'), eval('var it = g(); 5; var r = it.next();'), eval('4; let z = `${ {toString() { return 1; }} }`;'));", ["3 7 8 5 4"]),
